@@ -738,7 +738,19 @@ def namespace_pairing(ctx, rule="PAIR-namespace"):
 def identity_ok(ev, cl):
     """closure returns its single argument, or the tuple of its arguments when there are several."""
     A = ("param", "args")
-    r = ev.apply_closure(cl, (("star", A),), ())
+    if cl[0] == "closure":
+        r = ev.apply_closure(cl, (("star", A),), ())
+    elif cl[0] == "name" and cl[1].startswith("genjax."):
+        # a module-level function: evaluated from its own definition, applied to (*args)
+        try:
+            look = ev.p.lookup(cl[1])
+            if look is None or look[0] != "func":
+                return False
+            r = ev.eval_funcnode(look[1], look[2], cl[1], args=(("star", A),), kwargs=()).ret
+        except Exception:
+            return False
+    else:
+        return False
     if r is None:
         return False
     for n in (1, 2, 3):
@@ -771,7 +783,7 @@ def tag_state_rules(ctx, rule="ROLE-tag_state"):
             ok, why = False, "state_p is not bound with the name given"
         elif full[2] != (("star", ("param", "values")),):
             ok, why = False, "state_p is not applied to the values given"
-        elif fn is None or fn[0] != "closure" or not identity_ok(ev, fn):
+        elif fn is None or fn[0] not in ("closure", "name") or not identity_ok(ev, fn):
             ok, why = False, "the function bound under state_p is not the identity on the tagged values"
         elif not any(x == full for x in subterms(s.ret)):
             ok, why = False, "tag_state does not return the primitive's result"
@@ -793,7 +805,7 @@ def tag_state_rules(ctx, rule="ROLE-tag_state"):
         nm = ev.kwget(inner[3], "name")
         fn = inner[2][0] if inner[2] else None
         try:
-            good = nm is not None and m.ev(nm) == "nm" and full[2] == (("star", VA),) and fn is not None and fn[0] == "closure" and identity_ok(ev, fn)
+            good = nm is not None and m.ev(nm) == "nm" and full[2] == (("star", VA),) and fn is not None and fn[0] in ("closure", "name") and identity_ok(ev, fn)
         except Unknown:
             good = False
     if good:
